@@ -373,6 +373,10 @@ def check(run):
             run.violation("R3", b.where, f"{cname}._bytes omits state that changes the curve (points / closed flag)", key=key_of("C14-R3", cname))
     # ---- A1 / A2 three-point arcs (algebraic)
     _arc_obligations(run, ix)
+    from ..passthrough import pass_through_rule
+    pass_through_rule(run, ix, "A7", "C14", "trimesh.path.polygons:edges_to_polygons", "enclosure_tree",
+                      "edges_to_polygons: every result with more than one ring is assembled from the containment tree (enclosure_tree); only the empty / single-ring case may return before it",
+                      "shell / hole assignment is a parity question over the nesting depth; a shortcut that asks only `contained by something` turns an island inside a hole into a hole")
     from ..svgarc import sweep_rule
     sweep_rule(run, ix, "A6", "C14")
     # ---- A5 nesting is decided loop-in-loop
